@@ -2,7 +2,8 @@
 import t2t, corr, semrun, impl
 
 OBLIGATIONS = ['Yalafi.C02_scan_slice', 'Yalafi.C02_getTxtPos_single', 'Yalafi.C02_removeLines_nonblank',
-               'Yalafi.C02_verb_literal', 'Yalafi.C02_verb_example_current']
+               'Yalafi.C02_verb_literal', 'Yalafi.C02_verb_example_current',
+               'Yalafi.C02_replaced_e2e', 'Yalafi.C02_accent_e2e', 'Yalafi.C02_accent_single', 'Yalafi.C02_shorthand_e2e', 'Yalafi.C02_replaced_first_char', 'Yalafi.C02_accent_e2e_current', 'Yalafi.C02_accent_example_current', 'Yalafi.C02_accent_example_eval', 'Yalafi.Generated.initParser_de', 'Yalafi.C02_shorthand_table_current', 'Yalafi.C02_shorthand_e2e_current', 'Yalafi.C02_shorthand_example_current', 'Yalafi.C02_shorthand_example_eval', 'Yalafi.C02_unknown_args_positions']
 
 def special_table():
     m = impl.load()
